@@ -619,8 +619,11 @@ def run_case(p):
         for t in p["targets"]:
             try:
                 cls = find_class(res, sb, t["component"])
-            except Exception as exc:  # import failure is C01's business  # noqa: BLE001
-                return {"outcome": f"import-fails:{type(exc).__name__}", "nontrivial": False, "stats": {"import_fail": 1}}
+            except Exception as exc:  # noqa: BLE001
+                # the model was generated (no diagnostic removed it) but its module cannot be imported: no instance can be decoded or encoded
+                return {"violations": [{"oracle": "model-unusable", "site": "import", "key": f"{t['key']}/{type(exc).__name__}",
+                                        "detail": f"the module of {t['component']} does not import: {type(exc).__name__}: {str(exc)[:160]}"}],
+                        "outcome": f"import-fails:{type(exc).__name__}", "nontrivial": True, "stats": {"import_fail": 1}}
             if cls is None:
                 continue
             reached = True
